@@ -17,6 +17,8 @@ TEMPLATES = {
     "module-code": "<%! import math\nK = math.floor(2.5) %>${K}${a}\n",
     "nested": '<%def name="o()"><%def name="i()">${a}${b}</%def>${i()}${c}</%def>${o()}${d}\n',
     "pageargs": '<%page args="a, z=7"/>${a}${z}${b}\n',
+    # inner defs whose argument defaults are context names: every declaration order the code generator can choose must work
+    "nested-defaults": '<%def name="o()"><%def name="i1(x=a)">${x}</%def><%def name="i2(y=b)">${y}</%def><%def name="i3(z=c)">${z}</%def>${i1()}${i2()}${i3()}${d}</%def>${o()}\n',
 }
 DATA = {k: v for k, v in zip("abcdefgh", ["1", "2", "3", "4", "5", "6", "7", "8"])}
 
